@@ -85,6 +85,7 @@ pub struct Violation {
     pub step: i32,
     pub op: Op,
     pub via: u8,
+    pub sink: u8,
     /// the step touched a stack-backed vector
     pub on_stack: bool,
     /// a fault fired in the step / the step was a cancellation
@@ -263,15 +264,15 @@ fn touched_slots(p: &Pred) -> [bool; 3] {
 
 impl<'a> Ctx<'a> {
     fn viol(&self, class: Class, step: i32, p: Option<&Pred>, faulted: u8, detail: String) -> Violation {
-        let (op, via, on_stack) = match p {
+        let (op, via, sink, on_stack) = match p {
             Some(p) => {
                 let t = touched_slots(p);
                 let on_stack = (0..3).any(|s| t[s] && self.info.be_of(s).on_stack());
-                (p.r.op, p.r.via, on_stack)
+                (p.r.op, p.r.via, p.r.sink, on_stack)
             }
-            None => (Op::Nop, 0, self.info.be[0].on_stack() || self.info.be[1].on_stack()),
+            None => (Op::Nop, 0, 0, self.info.be[0].on_stack() || self.info.be[1].on_stack()),
         };
-        Violation { class, step, op, via, on_stack, faulted, panic_involved: false, ownership: false, context: String::new(), detail }
+        Violation { class, step, op, via, sink, on_stack, faulted, panic_involved: false, ownership: false, context: String::new(), detail }
     }
 
     fn take_snaps(&mut self) {
@@ -340,13 +341,9 @@ impl<'a> Ctx<'a> {
                 return Err(self.viol(Class::LenGtCap, step, p, faulted, format!("slot {}: len {} > capacity {}", s, sn.len, sn.cap)));
             }
             if !sn.aligned {
-                return Err(self.viol(
-                    Class::Misaligned,
-                    step,
-                    p,
-                    faulted,
-                    format!("slot {} ({}): element storage not aligned to {}", s, self.info.be_of(s).label(), self.info.align),
-                ));
+                let mut v = self.viol(Class::Misaligned, step, p, faulted, format!("slot {} ({}): element storage is not aligned to {}", s, self.info.be_of(s).label(), self.info.align));
+                v.context = format!("{}/align={}", self.info.be_of(s).kind.name(), self.info.align);
+                return Err(v);
             }
             if let Some(j) = sn.spare_bad {
                 return Err(self.viol(
